@@ -13,7 +13,15 @@ CFG = {'lean_modules': ['ObiVerif.Props.C01'],
          '<= 400 bytes and compact flat files <= 700 bytes. `big`: the real ReadFasta/ReadFastq/ReadGenbank/ReadEMBL entry points (hard-coded 1 MiB / 128 MiB '
          'buffers) on generated multi-chunk streams (2.5-5 MB, resp. just over 128 MiB) with 2..4 workers. `kseq`: the C/kseq reader against the Go chunk '
          'parser on every generated FASTA/FASTQ file. non-trivial = distinct case with at least two chunks (chunks/pipe) or a non-empty input (split/parse); '
-         'big/kseq cases are oracle-only and counted trivial',
+         'big/kseq/file cases are oracle-only and counted trivial. Deepening round 2: bufio limits (EMBL lines of 65533..131072 bytes inside a record / '
+         'between records / first / unterminated last / n-1 bytes + CR LF / followed by 40 records so that a cut falls among them, with buffers below and above the line length; GenBank lines of 99..70000 bytes as '
+         'ignored line, DEFINITION continuation, feature line + CR LF, sequence line, unterminated last line; FASTA/FASTQ title, sequence, + and quality lines '
+         'of 4094..12289 bytes through the 4096-byte bufio.Reader); strings.TrimSpace on every white-space rune of unicode.IsSpace and on 16 look-alikes '
+         '(invalid / overlong UTF-8, lone lead or continuation bytes, ZWSP, BOM) at both ends and inside DEFINITION / continuation / SOURCE / DE / OS values '
+         '(fixed table + one generated value in three); VT, FF, NBSP, NEL, NUL, DEL, 0xFF inside FASTA/FASTQ titles (one generated file in three; not given to '
+         'kseq); empty sequences, title-only records, CONTIG-only GenBank records; `file`: the universal entry point ReadSequencesFromFile (Ropen + '
+         'OBIMimeTypeGuesser + dispatch + the real 1 MiB / 128 MiB readers, plain and gzip files) on every generated FASTA/FASTQ file and one flat file per '
+         'plan (thorough: two), compared with the chunk parser and the naive reference',
  'technique': 'Lean 4 theorems on executable models of ReadSeqFileChunk, the three record splitters, the four chunk parsers and the re-sequencer, for all '
               'files / buffer sizes / arrival orders + differential correspondence of every model with the real code (small buffers reach every cut position) '
               '+ direct oracles on the real code (one-chunk parse, naive line-based reference parser, file order, reassembly, two-parser agreement)',
@@ -36,24 +44,48 @@ CFG = {'lean_modules': ['ObiVerif.Props.C01'],
                'reader_independent_fastq / _wellFormed (every buffer size >= 2, every arrival permutation). (5) Flat files: parseGenbank_append, '
                'reader_independent_embl, reader_independent_genbank, reader_independent_flat under the explicit hypothesis regularEol (every CR is followed by '
                'LF), with counterexample theorems for irregular line ends (reader_embl_irregular_counterexample, reader_genbank_irregular_counterexample: '
-               'stray CR runs, outside well-formed files). NOT proved: record content = what the record text implies is checked by the naive reference oracle '
-               'on the real code, not proved. The C/kseq stdin reader is not modelled: two-parser agreement oracle only.',
+               'stray CR runs, outside well-formed files). (6) Deepening round 2. RECORD CONTENT PROVED for FASTA and FASTQ: faFileText / fqFileText render '
+               'abstract source records (title, sequence line(s), + line, quality line) with an arbitrary lay-out of end-of-line runs and folding; their '
+               'images are exactly the grammar files (wellFormedFasta_iff_rendered, wellFormedFastq_iff_rendered); parseFasta_content / parseFastq_content: '
+               'the chunk parser returns, in file order, for each record exactly what its own text says (id = title up to the first blank/tab, definition = '
+               'rest after that run, trailing blanks kept, sequence = lines concatenated and lower-cased, qualities = quality line minus the shift or none), '
+               'for any shift, with/without qualities; reader_content_fasta / reader_content_fastq: the same end to end for every buffer size >= 2 and every '
+               'arrival permutation. bufio limits: the model of EmblChunkParser now has the 65536-byte token limit of bufio.Scanner (scanner.Err() is never '
+               'read: the rest of the chunk is dropped silently): parseEmbl_append needs only `a` free of long lines and then holds for EVERY b; '
+               'reader_independent_embl / _flat carry the exact hypothesis shortLines 65536; embl_long_line_truncates (for any token limit: the parser returns '
+               'the records before the first long line only) and reader_embl_longline_counterexample (chunk dependence on such a file) show the hypothesis is '
+               'needed; GenBank: the 4096-byte ReadLine limit is unobservable (isPrefix and len > 100 are both fatal), gbLine is exact for every line length. '
+               'strings.TrimSpace is modelled exactly on bytes (all runes of unicode.IsSpace in UTF-8; invalid encodings stop the trimming). NOT proved: '
+               'record content for GenBank / EMBL = what the record text implies (naive reference oracle on the real code only; record locality for every '
+               'extracted field is proved). The C/kseq stdin reader is not modelled here (C17 models it): two-parser agreement oracle only.',
  'level_note': 'Defects found by the oracle on the unmodified code and repaired in /repo (patches in notes/patches/C01-*.diff): GenBank/EMBL parsers kept '
                'taxid/scientific_name (EMBL: id) across records; FastqChunkParser(with_quality=false) stored qualities for the last record of every chunk; '
                'ReadGenbank/ReadEMBL did not re-sequence the parsed chunks (out-of-order delivery with 2+ workers on inputs > 128 MiB); the kseq reader kept '
                'the CR of CR LF title lines (and extra leading blanks) in the definition. The models are of the repaired code. Hypothesis of the FASTA '
-               'theorems is FaComplete (the one-chunk parse succeeds and ends inside a sequence) - weaker than the grammar, which is shown to imply it. '
-               'Trusted: io.ReadFull contract (what makes the transport irrelevant; exercised with 4 transports), SortBatches = Model/Reseq (tied by C03), '
-               'goroutine liveness / channel protocol (watchdog only), bufio line limits (lines > 4096 / 65536 bytes not modelled), strings.TrimSpace on '
-               'non-ASCII white space not modelled, header (JSON/OBI) parsing excluded (C02).',
+               'theorems is FaComplete (the one-chunk parse succeeds and ends inside a sequence) - weaker than the grammar, which is shown to imply it; the '
+               'content theorems are stated on the grammar itself (rendered files). Trusted: io.ReadFull contract (what makes the transport irrelevant; '
+               'exercised with 4 transports), SortBatches = Model/Reseq (tied by C03), goroutine liveness / channel protocol (watchdog only), bufio.Scanner '
+               'buffer-growth policy reduced to its outcome (a token needs its newline within 65536 bytes; compared with the code on lines of 65533..131072 '
+               'bytes), the table of unicode.IsSpace (Go 1.23) as transcribed in spaceAt / spaceAtRev (compared on every rune of the table and 16 '
+               'look-alikes), header (JSON/OBI) parsing excluded (C02). Not covered: format sniffing (OBIMimeTypeGuesser) and Ropen are exercised by the '
+               '`file` oracle only, not modelled; FASTA/FASTQ lines longer than 12289 bytes are not compared with the model (its byte-by-byte append is '
+               'quadratic), the real parsers have no line limit there (bufio.Reader.ReadByte). Observed, outside the property: EmblChunkParser silently drops '
+               'the rest of a chunk after a line of 65536 bytes or more (ErrTooLong ignored) - chunk-dependent on such inputs (stat '
+               'chunk-dependence-on-malformed-input); the kseq reader splits titles at VT/FF (isspace) where the Go parsers split at blank/tab only (oracle '
+               'signature kseq.*.two-parsers-vt-ff.*, cases not generated).',
  'trusted_base': LEAN_TB + ['io.ReadFull: fills the buffer unless the stream ends (ErrUnexpectedEOF / EOF)',
- 'bufio.Reader.ReadLine / bufio.Scanner line splitting as modelled (linesReadLine, linesScan)',
- 'strconv.Atoi, strings.SplitN, strings.TrimSpace (ASCII) as modelled',
+ 'bufio.Reader.ReadLine line splitting as modelled (linesReadLine); bufio.Scanner / ScanLines with MaxScanTokenSize = 65536 as modelled (linesScanMax)',
+ 'strconv.Atoi, strings.SplitN as modelled; strings.TrimSpace = trimSpace (unicode.IsSpace table of Go 1.23, utf8 decoding of invalid bytes as width-1 '
+ 'RuneError)',
  'compress/gzip + obiformats.Buf as a transport',
- 'C kseq reader (fastseq_read.c, kseq.h): not modelled, compared with the Go parser'],
+ 'C kseq reader (fastseq_read.c, kseq.h): not modelled here, compared with the Go parser (modelled by C17)',
+ 'OBIMimeTypeGuesser / Ropen / gabriel-vasile/mimetype: exercised by the `file` oracle, not modelled'],
  'modelled': 'pkg/obiformats: seqfile_chunk_read.go (ReadSeqFileChunk), fastaseq_read.go (EndOfLastFastaEntry, FastaChunkParser), fastqseq_read.go '
-             '(EndOfLastFastqEntry, FastqChunkParser, _storeSequenceQuality), embl_read.go (EndOfLastFlatFileEntry, EmblChunkParser), genbank_read.go '
-             '(GenbankChunkParser); the worker/SortBatches composition of ReadFasta/ReadFastq/ReadGenbank/ReadEMBL (Model/Reseq.lean)',
+             '(EndOfLastFastqEntry, FastqChunkParser, _storeSequenceQuality), embl_read.go (EndOfLastFlatFileEntry, EmblChunkParser incl. the bufio.Scanner '
+             'token limit), genbank_read.go (GenbankChunkParser incl. the ReadLine isPrefix path); strings.TrimSpace on bytes; the worker/SortBatches '
+             'composition of ReadFasta/ReadFastq/ReadGenbank/ReadEMBL (Model/Reseq.lean)',
  'assumptions': ['read buffer of at least 2 bytes (with 1 byte the real loop does not terminate; production buffers are 1 MiB / 128 MiB)',
                  'each chunk number is pushed once by the parser workers (Contract of C03)',
-                 'the reader returns no error other than end of stream (truncated compressed input is property C17)']}
+                 'the reader returns no error other than end of stream (truncated compressed input is property C17)',
+                 'EMBL theorems: no line of 65536 bytes or more (shortLines; EMBL lines have at most 80 bytes) - the exact condition under which bufio.Scanner '
+                 'hands over every line']}
